@@ -27,12 +27,13 @@ StoreC == <<V17, [s |-> "node", k |-> "root.dir", raw |-> <<Unk("HOME")>>]>>
 JustBuiltin == {Builtin}
 
 \* ---- quick: every kind of call, depth 3
-QCfgAdds == Adds(0..5, Secs2, Keys2, {A, NoneV}) \cup Adds({1, 3}, Secs2, {"datastore.type"}, {B})
+QCfgAdds == Adds({0, 2, 5}, Secs2, {"datastore.type"}, {A, NoneV}) \cup Adds({3}, {"mechanic"}, {"team.repository.dir"}, {A})
 QBaseAdds == Adds({1, 3}, Secs2, {"datastore.type"}, {B}) \cup Adds({2}, {"mechanic"}, {"team.repository.dir"}, {B, NoneV})
-QFileEdits == Edits(Secs2, {"datastore.type"}, {<<Lit("a")>>, <<Dir, Lit("/d"), Esc>>, <<Unk("foo")>>}) \cup VersionEdits
+QFileEdits == Edits(Secs2, {"datastore.type"}, {<<Dir, Lit("/d"), Esc>>, <<Unk("foo")>>})
+              \cup Edits({"meta"}, {"config.version"}, {<<Lit("17")>>, <<Lit("16")>>, <<Lit("abc")>>})
 QStores == {StoreA, StoreB}
 QAddl == {<<>>, <<"mechanic">>}
-QInitFiles == {NoFiles(Names2), [NoFiles(Names2) EXCEPT ![""] = GoodFile], [NoFiles(Names2) EXCEPT !["x"] = GoodFile, ![""] = OldFile]}
+QInitFiles == {NoFiles(Names2), [NoFiles(Names2) EXCEPT !["x"] = GoodFile, ![""] = OldFile]}
 
 \* ---- thorough: depth 4 over slightly wider alphabets
 TCfgAdds == Adds(0..5, Secs2, Keys2, {A, B, NoneV})
@@ -45,6 +46,7 @@ K2Slots == {<<sc, "mechanic", "car.names">> : sc \in {1, 2, 5}}
 K2SlotsWide == {<<sc, "mechanic", "car.names">> : sc \in Scopes}
 TableStores == {(f1 @@ f2) @@ Builtin : f1 \in PartialFns(K1Slots, {A, NoneV}), f2 \in PartialFns(K2Slots, {B, NoneV})}
 TableStoresWide == {(f1 @@ f2) @@ Builtin : f1 \in PartialFns(K1Slots, {A, NoneV}), f2 \in PartialFns(K2SlotsWide, {B, NoneV})}
+TableInitFiles == {NoFiles(Names1)}
 TableSecs == {"mechanic", "reporting"}
 TableKeys == {"team.repository.dir", "car.names", "team.default.repository"}
 
